@@ -102,6 +102,9 @@ def rerun(names):
         meta = json.load(open(mp))
         props = list(meta.get("checks", {meta["property"]: 0}))
         res = confirm(sdir, props, full_suite=False)
+        if "apply_error" in res or not res.get("checks"):
+            print(name, "PATCH-DOES-NOT-APPLY (meta.json left as it was):", res.get("apply_error", "")[:300])
+            continue
         meta["checks"] = res.get("checks", {})
         meta["caught_by"] = [p for p, r in meta["checks"].items() if r["rc"] == 1]
         json.dump(meta, open(mp, "w"), indent=1)
